@@ -115,16 +115,23 @@ def pub(cfg):
     return {k: v for k, v in cfg.items() if k in ("typed", "hook", "trees")}
 
 
-def exhaustive_single_ops(ctx, out, judge, *, max_nodes, alphabet, typed=False, ops_of=None, label_limit=4):
+def exhaustive_single_ops(ctx, out, judge, *, max_nodes, alphabet, typed=False, ops_of=None, label_limit=4, specs=None):
     """every forest with <= max_nodes nodes (labelings with clones sampled) x every single
-    operation of `ops_of(impl, ti)`"""
+    operation of `ops_of(impl, ti)`; with `specs`, those labelled forests instead"""
     count = 0
-    for n in range(0, max_nodes + 1):
-        for shape in gen.forests(n):
-            labelings = list(gen.labelings(shape, alphabet, limit=(None if n <= 2 else label_limit), rng=ctx.rng))
+    for n in ([None] if specs is not None else range(0, max_nodes + 1)):
+        for shape in ([None] if specs is not None else gen.forests(n)):
+            if specs is not None:
+                labelings = specs
+                n = 3
+            else:
+                labelings = list(gen.labelings(shape, alphabet, limit=(None if n <= 2 else label_limit), rng=ctx.rng))
             for spec in labelings:
                 cfg = dict(typed=typed, trees=2)
-                setup = H.build_ops(spec, 0, typed) + H.build_ops([(alphabet[0], [(alphabet[1], [])]), (alphabet[-1], [])], 1, typed)
+                other = [(alphabet[0], [(alphabet[1], [])]), (alphabet[-1], [])]
+                if typed:   # kinds other than the default, so that a copy that loses the kind shows
+                    other = [((alphabet[0], "a"), [((alphabet[1], "b"), [])]), ((alphabet[-1], "b"), [])]
+                setup = H.build_ops(spec, 0, typed) + H.build_ops(other, 1, typed)
                 # enumerate ops on a probe world
                 r0, s0 = setup_runner(ctx, dict(cfg, setup=setup, oracles=False))
                 if s0 is not None:
@@ -150,7 +157,19 @@ def exhaustive_single_ops(ctx, out, judge, *, max_nodes, alphabet, typed=False, 
                         out.fail(dict(cfg=pub(cfg), log=setup + [H.clean(op)]), f"[{tag}] tree {spec}, op {H.clean(op)}: {text}", step=s.as_dict(), finding=finding)
                     elif s.problems:
                         out.disagree(dict(cfg=pub(cfg), log=setup + [H.clean(op)]), f"tree {spec}, op {H.clean(op)}: {s.problems[:2]}", step=s.as_dict())
+    if specs is None:
+        c2 = exhaustive_single_ops(ctx, out, judge, max_nodes=max_nodes, alphabet=alphabet, typed=typed, ops_of=ops_of, label_limit=label_limit, specs=EQ_SIBLING_SPECS)
+        out.dist["eq_sibling_single_ops"] += c2
+        count += c2
     return count
+
+
+# siblings whose data compares equal (the same string, equal-but-distinct objects) under different explicit data_ids:
+# positions given by `before=<node>` must be found by identity, not by ==
+EQ_SIBLING_SPECS = [
+    [({"a": 0, "did": 1}, []), ({"a": 0, "did": 2}, [({"a": 0, "did": 3}, []), ({"a": 0, "did": 4}, [])]), ({"a": 0, "did": 5}, [])],
+    [({"a": 18, "did": 1}, []), ({"a": 19, "did": 2}, []), ({"a": 18, "did": 3}, [({"a": 19, "did": 1}, []), ({"a": 18, "did": 2}, [])])],
+]
 
 
 def all_single_ops(impl, ti, *, labels, full=True):
